@@ -900,6 +900,171 @@ Definition envref_world (key : str) : world :=
 Lemma envref_world_tool_env : tool_env (envref_world (lit "sk-AAAA")) = [(lit "HOME", lit "/home/u")].
 Proof. vm_compute. reflexivity. Qed.
 
+
+(* ==== the JSON stage: erasure commutes with merging the files, with the schema decision and with the typed view ==== *)
+Lemma mask_nil : mask [] = [].
+Proof. reflexivity. Qed.
+
+Lemma merge_opt_map {A} (g : A -> A) (f : A -> A -> A) :
+  (forall a b, f (g a) (g b) = g (f a b)) ->
+  forall o n, merge_opt f (option_map g o) (option_map g n) = option_map g (merge_opt f o n).
+Proof. intros H [a|] [b|]; cbn [merge_opt option_map]; try reflexivity. rewrite H. reflexivity. Qed.
+
+Lemma merge_hdrs_low a b : merge_hdrs (low_hdrs a) (low_hdrs b) = low_hdrs (merge_hdrs a b).
+Proof.
+  destruct a as [ma|qa|], b as [mb|qb|]; try reflexivity.
+  cbn [low_hdrs merge_hdrs]. f_equal.
+  apply (fold_left_commute
+           (fun hs (kv : str * hval) => upsert (fst kv) (fun _ => snd kv) hs)
+           (fun hs (kv : str * hval) => upsert (fst kv) (fun _ => snd kv) hs)
+           (map (fun kv : str * hval => (fst kv, low_hval (snd kv))))
+           (fun kv : str * hval => (fst kv, low_hval (snd kv)))).
+  intros m x. cbn [fst snd].
+  apply (upsert_map low_hval (fst x) (fun _ => snd x) (fun _ => low_hval (snd x))).
+  intros o. reflexivity.
+Qed.
+
+Lemma merge_kval_low a b : merge_kval (low_kval a) (low_kval b) = low_kval (merge_kval a b).
+Proof.
+  destruct a as [[v|n]| |], b as [[v'|n']| |]; reflexivity.
+Qed.
+
+Lemma merge_pval_low a b : merge_pval (low_pval a) (low_pval b) = low_pval (merge_pval a b).
+Proof.
+  destruct a as [e k h|q|], b as [e' k' h'|q'|]; try reflexivity.
+  cbn [low_pval merge_pval].
+  rewrite (merge_opt_map low_kval merge_kval merge_kval_low), (merge_opt_map low_hdrs merge_hdrs merge_hdrs_low).
+  reflexivity.
+Qed.
+
+Lemma merge_provs_low a b : merge_provs (low_provs a) (low_provs b) = low_provs (merge_provs a b).
+Proof.
+  destruct a as [ma|qa|], b as [mb|qb|]; try reflexivity.
+  cbn [low_provs merge_provs]. f_equal.
+  apply (fold_left_commute
+           (fun m (kp : str * pval) => upsert (fst kp) (fun o => match o with Some x => merge_pval x (snd kp) | None => snd kp end) m)
+           (fun m (kp : str * pval) => upsert (fst kp) (fun o => match o with Some x => merge_pval x (snd kp) | None => snd kp end) m)
+           (map (fun kp : str * pval => (fst kp, low_pval (snd kp))))
+           (fun kp : str * pval => (fst kp, low_pval (snd kp)))).
+  intros m x. cbn [fst snd].
+  apply (upsert_map low_pval (fst x)
+           (fun o => match o with Some y => merge_pval y (snd x) | None => snd x end)
+           (fun o => match o with Some y => merge_pval y (low_pval (snd x)) | None => low_pval (snd x) end)).
+  intros [y|]; cbn [option_map]; [apply merge_pval_low | reflexivity].
+Qed.
+
+Lemma merge_doc_low a b : merge_doc (low_doc a) (low_doc b) = low_doc (merge_doc a b).
+Proof.
+  destruct a as [ps m p st pa f|q|], b as [ps' m' p' st' pa' f'|q'|]; try reflexivity.
+  cbn [low_doc merge_doc]. rewrite (merge_opt_map low_provs merge_provs merge_provs_low). reflexivity.
+Qed.
+
+Lemma merge_docs_low ds : merge_docs (map low_doc ds) = low_doc (merge_docs ds).
+Proof.
+  unfold merge_docs. change empty_doc with (low_doc empty_doc) at 1.
+  apply (fold_left_commute merge_doc merge_doc low_doc low_doc). intros a b. apply merge_doc_low.
+Qed.
+
+(* the schema decision and the quoted scalar *)
+Lemma first_some_map {A B} (g : A -> B) (l : list (option A)) :
+  first_some (map (option_map g) l) = option_map g (first_some l).
+Proof. induction l as [|[a|] l IH]; [reflexivity | reflexivity | exact IH]. Qed.
+
+Lemma hval_error_low v : hval_error (low_hval v) = option_map mask (hval_error v).
+Proof. destruct v; reflexivity. Qed.
+Lemma hdrs_error_low h : hdrs_error (low_hdrs h) = option_map mask (hdrs_error h).
+Proof.
+  destruct h as [m|q|]; try reflexivity.
+  cbn [low_hdrs hdrs_error]. rewrite map_map. cbn [snd].
+  rewrite <- (first_some_map mask). rewrite map_map. f_equal.
+  apply map_ext. intros kv. apply hval_error_low.
+Qed.
+Lemma pval_error_low p : pval_error (low_pval p) = option_map mask (pval_error p).
+Proof.
+  destruct p as [e k h|q|]; try reflexivity.
+  cbn [low_pval pval_error].
+  destruct k as [[ks| |]|]; cbn [option_map low_kval]; try reflexivity;
+    (destruct h as [hs|]; cbn [option_map]; [apply hdrs_error_low | reflexivity]).
+Qed.
+Lemma provs_error_low ps : provs_error (low_provs ps) = option_map mask (provs_error ps).
+Proof.
+  destruct ps as [m|q|]; try reflexivity.
+  cbn [low_provs provs_error]. rewrite map_map. cbn [snd].
+  rewrite <- (first_some_map mask). rewrite map_map. f_equal.
+  apply map_ext. intros kp. apply pval_error_low.
+Qed.
+Lemma doc_error_low d : doc_error (low_doc d) = option_map mask (doc_error d).
+Proof.
+  destruct d as [[ps|] m p st pa f|q|]; try reflexivity.
+  cbn [low_doc option_map doc_error]. apply provs_error_low.
+Qed.
+
+(* the typed view *)
+Lemma to_headers_low h : to_headers (option_map low_hdrs h) = hide_vals (to_headers h).
+Proof.
+  destruct h as [[m|q|]|]; try reflexivity.
+  cbn [option_map low_hdrs to_headers]. unfold hide_vals. rewrite !map_map. apply map_ext.
+  intros [n v]. cbn [fst snd]. destruct v; reflexivity.
+Qed.
+Lemma to_patch_low p : to_patch (low_pval p) = low_patch (to_patch p).
+Proof.
+  destruct p as [e k h|q|]; try reflexivity.
+  cbn [low_pval to_patch]. unfold low_patch. cbn [pa_endpoint pa_key pa_headers].
+  rewrite to_headers_low. f_equal.
+  destruct k as [[ks| |]|]; reflexivity.
+Qed.
+Lemma to_layer_low d : to_layer (low_doc d) = low_layer (to_layer d).
+Proof.
+  destruct d as [ps m p st pa f|q|]; try reflexivity.
+  cbn [low_doc to_layer]. unfold low_layer. cbn [l_providers l_model l_primary l_stateless l_parallel l_followup].
+  f_equal. destruct ps as [[l|q|]|]; try reflexivity.
+  cbn [option_map low_provs]. rewrite !map_map. apply map_ext. intros [id pv]. cbn [fst snd]. rewrite to_patch_low. reflexivity.
+Qed.
+
+(* worlds given by their files: erasing the files and then typing = typing and then erasing *)
+Theorem world_of_low j : world_of (low_jworld j) = low_world (world_of j).
+Proof.
+  unfold world_of, low_jworld, low_world. cbn [jw_docs jw_env jw_ovr w_layers w_env w_ovr w_misfit map].
+  rewrite merge_docs_low, to_layer_low, doc_error_low. reflexivity.
+Qed.
+Theorem jworld_low_equal : forall j1 j2, low_jworld j1 = low_jworld j2 -> low_world (world_of j1) = low_world (world_of j2).
+Proof. intros j1 j2 L. rewrite <- !world_of_low, L. reflexivity. Qed.
+
+(* everything proved about typed worlds holds for worlds given by their (possibly mis-shaped) files *)
+Theorem files_noninterference : forall fuel sc thread j1 j2 prompt initial,
+  low_jworld j1 = low_jworld j2 ->
+  persisted (run fuel sc thread (world_of j1) prompt initial) = persisted (run fuel sc thread (world_of j2) prompt initial)
+  /\ doctor_report (world_of j1) = doctor_report (world_of j2)
+  /\ startup_warnings (jw_env j1) = startup_warnings (jw_env j2).
+Proof.
+  intros fuel sc thread j1 j2 prompt initial L. pose proof (jworld_low_equal j1 j2 L) as L'. repeat split.
+  - apply (noninterference fuel sc thread _ _ prompt initial L').
+  - apply doctor_report_noninterference. exact L'.
+  - apply (startup_output_noninterference _ _ L').
+Qed.
+
+(* examples: the curl-style header string of a project file survives the merge (a non-object replaces the map of the
+   global file) and makes the whole configuration misfit; a still higher file with a header map repairs it *)
+Definition ex_global : doc :=
+  DObj (Some (PMap [(lit "acme", PObj (Some (lit "http://127.0.0.1:9/v1/responses")) (Some (KV (KInline (lit "sk-inline"))))
+                                      (Some (HMap [(lit "X-Lower", HStr (lit "low"))])))]))
+       (Some (lit "acme/m1")) None None None None.
+Definition ex_bad (secret : str) : doc :=
+  DObj (Some (PMap [(lit "acme", PObj None None (Some (HScalar (lit "X-Api-Key: " ++ secret))))])) None None None None None.
+Definition ex_repair : doc :=
+  DObj (Some (PMap [(lit "acme", PObj None None (Some (HMap [(lit "X-Api-Key", HStr (lit "tok"))])))])) None None None None None.
+Definition ex_jworld (ds : list doc) : jworld := mkJWorld ds [(E_ENDPOINT, lit "http://127.0.0.1:9/v1/responses")] no_ovr.
+Lemma ex_files_misfit :
+  w_misfit (world_of (ex_jworld [ex_global; ex_bad (lit "tok-AAAA")])) = Some (lit "X-Api-Key: tok-AAAA")
+  /\ low_jworld (ex_jworld [ex_global; ex_bad (lit "tok-AAAA")]) = low_jworld (ex_jworld [ex_global; ex_bad (lit "tok-BBBB")])
+  /\ doctor_report (world_of (ex_jworld [ex_global; ex_bad (lit "tok-AAAA")]))
+     = ([], Some (mkDoctor None None (lit "http://127.0.0.1:9/v1/responses") None false None [] false false None)).
+Proof. vm_compute. repeat split; reflexivity. Qed.
+Lemma ex_files_repaired :
+  w_misfit (world_of (ex_jworld [ex_global; ex_bad (lit "tok-AAAA"); ex_repair])) = None
+  /\ option_map d_header_names (doctor (world_of (ex_jworld [ex_global; ex_bad (lit "tok-AAAA"); ex_repair]))) = Some [lit "X-Api-Key"].
+Proof. vm_compute. split; reflexivity. Qed.
+
 (* rip-cli: everything above applies to what the authority spawned by `rip run --provider ..` stores and shows *)
 Theorem cli_run_noninterference : forall f fuel sc w1 w2 w1' w2' prompt initial,
   low_world w1 = low_world w2 ->
